@@ -38,10 +38,13 @@ type ServerCfg struct {
 	// TLSVia: how the configuration reaches the server: "" = the TLSConfig option,
 	// "field" = the exported Server.TLSConfig field assigned after NewServer,
 	// "late-cert" = the option with a config whose certificate is added afterwards
-	TLSVia   string   `json:"tls_via,omitempty"`
-	MW       []MWSpec `json:"mw,omitempty"`
-	Term     string   `json:"term,omitempty"` // "" | ok | fail
-	NilParse bool     `json:"nilparse,omitempty"`
+	TLSVia string `json:"tls_via,omitempty"`
+	// TLSClientAuth: "" | "request" (tls.RequestClientCert) | "require-any"
+	// (tls.RequireAnyClientCert): client certificates are asked for but never verified
+	TLSClientAuth string   `json:"tls_client_auth,omitempty"`
+	MW            []MWSpec `json:"mw,omitempty"`
+	Term          string   `json:"term,omitempty"` // "" | ok | fail
+	NilParse      bool     `json:"nilparse,omitempty"`
 }
 
 // AuthEntry scripts the password validator: outcome for one credential triple.
@@ -86,6 +89,26 @@ type Step struct {
 	// IdleMs is simulated time (milliseconds of the bubble's fake clock) the
 	// client lets pass before it sends this step.
 	IdleMs int `json:"idle_ms,omitempty"`
+	// HoldBack > 0: only the first HoldBack bytes of the step's last message are
+	// delivered with this step; the rest travels at the head of the next step.
+	HoldBack int `json:"holdback,omitempty"`
+}
+
+// CompletedBefore returns, for every step index i (0..len), how many client
+// messages have been delivered completely once the steps before i were fed.
+func (cc *ConnCase) CompletedBefore() []int {
+	out := make([]int, len(cc.Steps)+1)
+	carry := 0
+	for i, st := range cc.Steps {
+		n := len(st.Msgs) + carry
+		carry = 0
+		if st.HoldBack > 0 && len(st.Msgs) > 0 && i+1 < len(cc.Steps) {
+			n--
+			carry = 1
+		}
+		out[i+1] = out[i] + n
+	}
+	return out
 }
 
 // Fault kinds: read-err (At = index of the Read call), eof-at-byte (At = input
@@ -117,6 +140,8 @@ type TLSClient struct {
 	// StayOpen: the client also reads the reply to its last step and then keeps
 	// the connection open without sending anything more (an idle session)
 	StayOpen bool `json:"stayopen,omitempty"`
+	// Cert: the client presents a (self-signed, unverifiable) certificate
+	Cert bool `json:"cert,omitempty"`
 }
 
 // SchedCase is the E2 part of a case.
